@@ -6,6 +6,13 @@ use crate::sess::Sess;
 /// Re-run an ops file (arg 0) on the real implementation.
 pub fn replay(out: &mut Out, extra: &[String]) {
     let text = std::fs::read_to_string(&extra[0]).expect("ops file");
+    // ops of the interactive session are executed in one batch by the hooked binary
+    let tui_heads = ["tnew", "tfile", "key", "tdump", "draw", "drawp", "cmd"];
+    if text.lines().any(|l| tui_heads.contains(&l.split(' ').next().unwrap_or(""))) {
+        std::env::set_var("VERIF_TUI_SCRIPT", &extra[0]);
+        crate::c_tui::run_c17(out, 0, false);
+        return;
+    }
     let mut s = Sess::new();
     for line in text.lines() {
         let (op, r) = s.apply2(line);
